@@ -19,7 +19,7 @@ pub enum Op {
     SnapshotReclaim(&'static str),
 }
 
-fn op_name(o: &Op) -> String {
+pub fn op_name(o: &Op) -> String {
     match o {
         Op::CreateDb(d, s) => format!("create-db {} ({})", d, s),
         Op::Set(d, k, v) => format!("set {}.{}={:?}", d, k, v),
@@ -30,7 +30,7 @@ fn op_name(o: &Op) -> String {
     }
 }
 
-fn exec_op(w: &mut NetWorld, o: &Op) -> Result<(), String> {
+pub fn exec_op(w: &mut NetWorld, o: &Op) -> Result<(), String> {
     let mut lines: Vec<String> = vec![format!("auth {} {}", USER, PWD)];
     match o {
         Op::CreateDb(d, s) => lines.push(format!("create-db {} tok-{} {}", d, d, s)),
@@ -69,7 +69,7 @@ pub enum Joiner {
 }
 
 /// per database: (token, strategy, live keys -> (value, version))
-type View = BTreeMap<String, (Option<String>, i32, BTreeMap<String, (String, i32)>)>;
+pub type View = BTreeMap<String, (Option<String>, i32, BTreeMap<String, (String, i32)>)>;
 
 fn view(w: &NetWorld, i: usize) -> View {
     let dbs = &w.nodes[i].node.dbs;
@@ -155,58 +155,65 @@ pub fn run_case(c: &Case) -> Result<Vec<(String, String, String)>, String> {
             return Ok(());
         }
         let (p, j) = (view(&w, 0), view(&w, 1));
-        for (db, (tok, strat, keys)) in p.iter() {
-            match j.get(db) {
-                None => {
-                    let when = if c.away.iter().any(|o| matches!(o, Op::CreateDb(d, _) if *d == db.as_str())) { "created while the joiner was away" } else { "created before the joiner left" };
-                    out.push(("database-missing-on-joiner".to_string(), format!("database missing ({})", when), format!("database {} of the primary does not exist on the joiner", db)))
-                }
-                Some((jtok, jstrat, jkeys)) => {
-                    if jtok != tok {
-                        out.push(("database-token-differs".to_string(), "token".to_string(), format!("database {}: token {:?} on the primary, {:?} on the joiner", db, tok, jtok)));
-                    }
-                    if jstrat != strat {
-                        out.push(("database-strategy-differs".to_string(), "strategy".to_string(), format!("database {}: strategy {} on the primary, {} on the joiner", db, strat, jstrat)));
-                    }
-                    for (k, (v, ver)) in keys.iter() {
-                        match jkeys.get(k) {
-                            None => out.push(("key-missing-on-joiner".to_string(), format!("key missing ({})", provenance(c, db, k)), format!("{}.{}={:?} (v{}) on the primary, absent on the joiner", db, k, v, ver))),
-                            Some((jv, jver)) => {
-                                if jv != v {
-                                    let base_kind = if v.contains(' ') { "value with spaces" } else if v.is_empty() { "empty value" } else if v.chars().next().map(|c| c.is_ascii_digit()).unwrap_or(false) { "numeric-first value" } else { "plain value" };
-                                    // the known format defect eats exactly the first word (the parser takes it for
-                                    // the version): anything else that happens to a value is a difference of its own
-                                    let minus_first_word = v.split_once(' ').map(|x| x.1.to_string()).unwrap_or_default();
-                                    let kind_s = if v.contains(' ') && *jv != minus_first_word { "multi-word value that lost more than its first word".to_string() } else { base_kind.to_string() };
-                                    let kind = kind_s.as_str();
-                                    out.push(("value-differs-on-joiner".to_string(), format!("{} ({})", kind, provenance(c, db, k)), format!("{}.{}: {:?} on the primary, {:?} on the joiner", db, k, v, jv)));
-                                } else if jver != ver {
-                                    out.push(("version-differs-on-joiner".to_string(), format!("joiner {} by {}", if jver > ver { "ahead" } else { "behind" }, (jver - ver).abs()), format!("{}.{}={:?}: version {} on the primary, {} on the joiner", db, k, v, ver, jver)));
-                                }
-                            }
-                        }
-                    }
-                    for (k, (jv, _)) in jkeys.iter() {
-                        if !keys.contains_key(k) {
-                            // a reclaiming snapshot on the primary after the remove drops the tombstone, the only
-                            // thing a full sync could have told the joiner about
-                            let all: Vec<&Op> = c.before.iter().chain(c.away.iter()).collect();
-                            // the remove that made the key absent: the first one after the key was last written
-                            let last_write = all.iter().rposition(|o| matches!(o, Op::Set(d, kk, _) | Op::Inc(d, kk) if *d == db.as_str() && *kk == k.as_str()));
-                            let from = last_write.map(|i| i + 1).unwrap_or(0);
-                            let first_rm = all[from..].iter().position(|o| matches!(o, Op::Remove(d, kk) if *d == db.as_str() && *kk == k.as_str())).map(|i| i + from);
-                            let reclaimed = first_rm.map(|i| all[i + 1..].iter().any(|o| matches!(o, Op::SnapshotReclaim(d) if *d == db.as_str()))).unwrap_or(false);
-                            out.push(("removed-key-still-on-joiner".to_string(), format!("removed key ({}{})", provenance(c, db, k), if reclaimed { ", tombstone reclaimed on the primary" } else { "" }), format!("{}.{} was removed on the primary, the joiner still has {:?}", db, k, jv)));
-                        }
-                    }
-                }
-            }
-        }
+        out.extend(compare_views(c, &p, &j));
         Ok(())
     })();
     w.shutdown();
     r?;
     Ok(out)
+}
+
+/// joiner against primary, database by database (shared with the real-transport stage)
+pub fn compare_views(c: &Case, p: &View, j: &View) -> Vec<(String, String, String)> {
+    let mut out = vec![];
+    for (db, (tok, strat, keys)) in p.iter() {
+        match j.get(db) {
+            None => {
+                let when = if c.away.iter().any(|o| matches!(o, Op::CreateDb(d, _) if *d == db.as_str())) { "created while the joiner was away" } else { "created before the joiner left" };
+                out.push(("database-missing-on-joiner".to_string(), format!("database missing ({})", when), format!("database {} of the primary does not exist on the joiner", db)))
+            }
+            Some((jtok, jstrat, jkeys)) => {
+                if jtok != tok {
+                    out.push(("database-token-differs".to_string(), "token".to_string(), format!("database {}: token {:?} on the primary, {:?} on the joiner", db, tok, jtok)));
+                }
+                if jstrat != strat {
+                    out.push(("database-strategy-differs".to_string(), "strategy".to_string(), format!("database {}: strategy {} on the primary, {} on the joiner", db, strat, jstrat)));
+                }
+                for (k, (v, ver)) in keys.iter() {
+                    match jkeys.get(k) {
+                        None => out.push(("key-missing-on-joiner".to_string(), format!("key missing ({})", provenance(c, db, k)), format!("{}.{}={:?} (v{}) on the primary, absent on the joiner", db, k, v, ver))),
+                        Some((jv, jver)) => {
+                            if jv != v {
+                                let base_kind = if v.contains(' ') { "value with spaces" } else if v.is_empty() { "empty value" } else if v.chars().next().map(|c| c.is_ascii_digit()).unwrap_or(false) { "numeric-first value" } else { "plain value" };
+                                // the known format defect eats exactly the first word (the parser takes it for
+                                // the version): anything else that happens to a value is a difference of its own
+                                let minus_first_word = v.split_once(' ').map(|x| x.1.to_string()).unwrap_or_default();
+                                let kind_s = if v.contains(' ') && *jv != minus_first_word { "multi-word value that lost more than its first word".to_string() } else { base_kind.to_string() };
+                                let kind = kind_s.as_str();
+                                out.push(("value-differs-on-joiner".to_string(), format!("{} ({})", kind, provenance(c, db, k)), format!("{}.{}: {:?} on the primary, {:?} on the joiner", db, k, v, jv)));
+                            } else if jver != ver {
+                                out.push(("version-differs-on-joiner".to_string(), format!("joiner {} by {}", if jver > ver { "ahead" } else { "behind" }, (jver - ver).abs()), format!("{}.{}={:?}: version {} on the primary, {} on the joiner", db, k, v, ver, jver)));
+                            }
+                        }
+                    }
+                }
+                for (k, (jv, _)) in jkeys.iter() {
+                    if !keys.contains_key(k) {
+                        // a reclaiming snapshot on the primary after the remove drops the tombstone, the only
+                        // thing a full sync could have told the joiner about
+                        let all: Vec<&Op> = c.before.iter().chain(c.away.iter()).collect();
+                        // the remove that made the key absent: the first one after the key was last written
+                        let last_write = all.iter().rposition(|o| matches!(o, Op::Set(d, kk, _) | Op::Inc(d, kk) if *d == db.as_str() && *kk == k.as_str()));
+                        let from = last_write.map(|i| i + 1).unwrap_or(0);
+                        let first_rm = all[from..].iter().position(|o| matches!(o, Op::Remove(d, kk) if *d == db.as_str() && *kk == k.as_str())).map(|i| i + from);
+                        let reclaimed = first_rm.map(|i| all[i + 1..].iter().any(|o| matches!(o, Op::SnapshotReclaim(d) if *d == db.as_str()))).unwrap_or(false);
+                        out.push(("removed-key-still-on-joiner".to_string(), format!("removed key ({}{})", provenance(c, db, k), if reclaimed { ", tombstone reclaimed on the primary" } else { "" }), format!("{}.{} was removed on the primary, the joiner still has {:?}", db, k, jv)));
+                    }
+                }
+            }
+        }
+    }
+    out
 }
 
 pub fn cases(quick: bool) -> Vec<Case> {
@@ -419,6 +426,7 @@ pub fn run(run: &mut Run) {
             }
         }
     }
+    real_transport_stage(run);
     run.cov("cases", json!(cs.len()));
     run.cov("cases_run", json!(done));
     run.cov_add("states", done as u64);
@@ -430,6 +438,49 @@ pub fn run(run: &mut Run) {
     run.assume("all nodes read one logical clock (synchronised wall clocks), because the catch-up protocol compares the joiner's last op time with the primary's record times");
     run.assume("the exchange is run with a fixed FIFO delivery policy (the quantifier of C05 is over histories, split points and joiner disks; delivery orders are C04's)");
     run.assume("joiner start-up = world::Node::start (mirrors main.rs); join = the short `join` connection of ask_to_join_all_replicas + start_inital_election");
+}
+
+/// One case on real node processes over TCP (wire.rs): the joiner is killed, the primary goes on,
+/// the joiner restarts from its directory and resynchronises. The link transcripts of both lives
+/// must equal the model's (conformance of the link model and of the start-up mirror), and the
+/// joiner must serve the primary's data.
+fn real_transport_stage(run: &mut Run) {
+    let out = match crate::wire::rejoin_stage() {
+        Ok(o) => o,
+        Err(e) => {
+            eprintln!("machinery: real-transport stage: {}", e);
+            std::process::exit(2);
+        }
+    };
+    let mut seen = std::collections::BTreeSet::new();
+    for (clause, kind, detail) in out.findings.iter() {
+        let shape = format!("resync from disk: {}", kind);
+        if seen.insert((clause.clone(), shape.clone())) {
+            run.violate(Violation { clause: clause.clone(), shape, detail: format!("real cluster (2 node processes over TCP, joiner killed and restarted): {} || case {}", detail, out.case.name()), replay: json!({"engine":"wire","case":out.case.name()}) });
+        }
+    }
+    if !out.conf.differences.is_empty() {
+        eprintln!("machinery: the NET engine's model of a rejoin does not conform to the real transport ({} real runs):", out.real_runs);
+        for d in out.conf.differences.iter() {
+            eprintln!("  {}", d);
+        }
+        std::process::exit(2);
+    }
+    run.cov_add("traces_validated_against_impl", out.conf.links_compared as u64);
+    run.cov(
+        "link_model_conformance",
+        json!({
+            "case": out.case.name(),
+            "real_node_processes": 2,
+            "replication_links_compared": out.conf.links_compared,
+            "lines_compared": out.conf.lines_compared,
+            "differences": out.conf.differences,
+            "real_runs_needed": out.real_runs,
+            "real_wall_ms": out.real_wall_ms as u64,
+            "what": "the case is run on real node processes (mirror of main.rs::start_db incl. the declutter timer; SIGKILL, restart from the same directory, real replicate-since exchange over TCP behind logging proxies) and on the NET model; per connection and direction the line sequences of both lives of the joiner must be identical after renaming addresses, op ids and times (catch-up commands of one database, which are sent in hash-map order, as sorted blocks); the joiner's data as served to an administrator is judged with the same comparison as the model cases",
+        }),
+    );
+    run.assume("real-transport stage: one schedule of the real system (the operating system's)");
 }
 
 /// `./check replay <file>` for a C05 case: the case is run again and the messages exchanged from
